@@ -143,7 +143,9 @@ func newTripleSpace(thorough bool) *tripleSpace {
 // build returns the triple for vector v; ok = false if the vector is redundant (encoding index
 // beyond the number of encodings of the point).
 // variant alphabet of the triple space: pure, ctx "c", ph "", and the maximum-length contexts
-var vSpace = []variantSpec{vPure, vCtx, vPh, {ref.Ctx, strings.Repeat("m", 254) + "x"}, {ref.Ph, strings.Repeat("m", 254) + "y"}}
+// ... and ph under the SAME context string as the ctx member (the two must stay separated by the flag
+// byte alone, whichever of them the process saw first)
+var vSpace = []variantSpec{vPure, vCtx, vPh, {ref.Ctx, strings.Repeat("m", 254) + "x"}, {ref.Ph, strings.Repeat("m", 254) + "y"}, {ref.Ph, "c"}}
 
 func (sp *tripleSpace) build(v []int) (t triple, vs variantSpec, ok bool) {
 	vs = vSpace[v[0]]
@@ -304,7 +306,26 @@ func compareTriple(c *rt.Ctx, prop string, t triple, vs variantSpec, zip bool, d
 			c.Class("modes-differ")
 		}
 	}
+	type brun struct {
+		sh  batchShape
+		zip bool
+	}
+	var bruns []brun
 	for _, sh := range shapes {
+		bruns = append(bruns, brun{sh, zip})
+		if prop == "C05" && zip {
+			// the same heterogeneous batch in default mode: the honest neighbours stay accepted and the
+			// entry gets the default-mode verdict (the modes differ on this entry only)
+			bruns = append(bruns, brun{sh, false})
+		}
+	}
+	for _, br := range bruns {
+		sh, zip := br.sh, br.zip
+		exp, cause := modelVerify(t, vs, zip)
+		mode := "default"
+		if zip {
+			mode = "zip215"
+		}
 		entries := batchWith(t, sh.pos, sh.n, vs)
 		rnd := rt.NewRng(c.Seed, fmt.Sprintf("%s-%d-%d", prop, sh.pos, sh.n))
 		all, valid, err, bpv := implBatch(entries, vs, zip, rnd)
